@@ -3,7 +3,7 @@ import time
 
 import z3
 
-from .encode import AND, BAD_BITS, NOT, OR, BW, Encoder, NeedType, State, VExc, VNone, Val, bv, default_like, mux_state
+from .encode import AND, BAD_BITS, NOT, OR, BW, Encoder, NeedType, State, VEmptyList, VExc, VNone, Val, bv, default_like, mux_state
 from .frontend import Unsupported
 
 
@@ -60,7 +60,8 @@ class BMC:
         known = dict(base.vars)
         reads = set()
         enc.track_reads = reads
-        for _round in range(12):
+        enc.emptylist_final = False
+        for _round in range(16):
             progress = False
             pending = 0
             for tid in ["main", 0]:
@@ -83,8 +84,15 @@ class BMC:
                             elif isinstance(known[k], VNone) and not isinstance(v, VNone):
                                 known[k] = default_like(v)
                                 progress = True
+                            elif isinstance(known[k], VEmptyList) and not isinstance(v, (VNone, VEmptyList)):
+                                known[k] = default_like(v)  # `[]` whose element type is now known (thread list / node list)
+                                progress = True
             enc.decl = known
             if not progress:
+                if not enc.emptylist_final:
+                    # second phase: what is still an untyped empty list never gets an element: iterating it yields nothing
+                    enc.emptylist_final = True
+                    continue
                 break
         enc.track_reads = None
         enc.decl = known
@@ -229,6 +237,11 @@ class BMC:
 def gate_of(enc, pname, i):
     """Name of the run-time hook at which the replay controller can observe this IR instruction (None: not observable)."""
     a = i.a
+    if i.op == "iternext":
+        loc = enc._location(i)
+        if loc is not None and loc in enc.shared_mut and loc not in enc.protected:
+            return f"iter:{loc[1]}"  # FOR_ITER over a shared list
+        return None
     if i.op == "fnstart":
         return "fnstart"
     if i.op == "fnend":
@@ -239,8 +252,13 @@ def gate_of(enc, pname, i):
         if a[0] == "release":
             return "lock.release:" + a[1][1]
         if a[0] == "method":
+            loc = enc._location(i)
+            if loc is not None and loc in enc.shared_mut and loc not in enc.protected:
+                return f"var:{loc[1]}:load"  # list.append / extend / clear on a shared list: observable as the load of the variable
             if a[2] in ("acquire", "release") and a[1][0] == "objvar" and a[1][1] in getattr(enc, "lock_names", ()):
                 return f"lock.{a[2]}:" + a[1][1]  # explicit lock.acquire() / lock.release()
+            if a[2] == "get_nowait":
+                return "q.get"
             if a[2] in ("get", "put", "task_done") or (a[2] == "join" and a[1] == ("objvar", "queue")):
                 return "q." + a[2]
             if a[2] == "Thread":
